@@ -199,3 +199,73 @@ def returned_by_byte(f, var, signed=True):
                     work.append(s2)
         out[byte] = vals
     return out
+
+
+def returned_for_value(f, var, value, max_states=4000):
+    """Set of values function f can return when its integer parameter `var` has the given value: the CFG is walked with an
+    environment of the integer locals assigned so far (declarations and plain assignments whose right-hand side is
+    computable); a branch whose condition is computable is followed on that side only.  None in the result means
+    "some return value could not be computed"."""
+    vals = set()
+    seen = set()
+    work = [(f.entry, ((var, value),))]
+    n = 0
+    while work:
+        b, envt = work.pop()
+        if (b, envt) in seen:
+            continue
+        seen.add((b, envt))
+        n += 1
+        if n > max_states:
+            vals.add(None)
+            break
+        env = dict(envt)
+        blk = f.blocks[b]
+        done = False
+        for e in blk['ev']:
+            if e['k'] == 'ret':
+                vals.add(eval_int(e.get('e'), env))
+                done = True
+                break
+            name = rhs = None
+            if e['k'] == 'decl' and e.get('init') is not None:
+                name, rhs = e['n'], e['init']
+            elif e['k'] == 'asg' and e.get('op') == '=' and isinstance(strip(e['l']), dict) and strip(e['l']).get('k') == 'var':
+                name, rhs = strip(e['l'])['n'], e.get('r')
+            if name is not None and name != var:
+                v = eval_int(rhs, env)
+                if v is None:
+                    env.pop(name, None)
+                else:
+                    env[name] = v
+        if done:
+            continue
+        envt2 = tuple(sorted(env.items()))
+        t = blk.get('term')
+        succ = blk['succ']
+        if t and t.get('kind') == 'switch' and 'cond' in t:
+            cv = eval_int(t['cond'], env)
+            if cv is not None:
+                chosen = default = None
+                for s2 in succ:
+                    if s2 is None:
+                        continue
+                    lab = f.blocks[s2].get('label') or {}
+                    if lab.get('case') and lab['case'][0] <= cv <= lab['case'][1]:
+                        chosen = s2
+                    if lab.get('default'):
+                        default = s2
+                nxt = chosen if chosen is not None else default
+                work.append((nxt if nxt is not None else succ[-1], envt2))
+                continue
+        if t and 'cond' in t and len(succ) == 2:
+            cv = eval_int(f.eff_cond(b), env)
+            if cv is not None:
+                nxt = succ[0] if cv else succ[1]
+                if nxt is not None:
+                    work.append((nxt, envt2))
+                continue
+        for s2 in succ:
+            if s2 is not None:
+                work.append((s2, envt2))
+    return vals
